@@ -574,7 +574,15 @@ class MPBFloatContext(SizedContext):
 
             match self.overflow:
                 case OverflowMode.OVERFLOW:
-                    if self._overflow_to_infinity(rounded.s):
+                    to_infinity = self._overflow_to_infinity(rounded.s)
+                    if self.num_randbits != 0 and not self._is_overflowing(
+                        x.round(self.pmax, n, RoundingMode.RTZ)
+                    ):
+                        # the operand lies in the gap above the largest value,
+                        # whose other end is the infinity: a draw that rounded
+                        # away chose that end, whatever the base mode is
+                        to_infinity = True
+                    if to_infinity:
                         # the operand is a finite value whose magnitude ran out
                         # of format, so its sign is carried through -- as every
                         # other arm here does -- even where the infinity itself
